@@ -203,3 +203,227 @@ Section Stage3c.
     cbn [resume]. exists s1. split; [reflexivity|]. repeat split; assumption.
   Qed.
 End Stage3c.
+
+(* ---------- the induction over the type, with SET and ANY as parameters ---------- *)
+
+Fixpoint frag (aset aany: bool) (T: ty) : bool :=
+  match T with
+  | TSet fs => aset && forallb (fun f => frag aset aany (snd f)) fs
+  | TAny => aany
+  | TChoice alts => forallb (frag aset aany) alts
+  | TSeq fs => forallb (fun f => frag aset aany (snd f)) fs
+  | TSeqOf t | TSetOf t => frag aset aany t
+  | TImp _ x | TExp _ x => frag aset aany x
+  | _ => true
+  end.
+
+Lemma frag_base aset aany : forall T, frag aset aany T = true -> frag aset aany (base_of T) = true.
+Proof.
+  induction T as [| | | | | | | | n|fs IH|fs IH|t IH|t IH|alts IH| |tg x IH|tg x IH] using ty_ind'; intros H; try exact H.
+  - exact (IH H).
+  - exact (IH H).
+Qed.
+
+Lemma unwrapped_base T : is_wrapped T = false -> base_of T = T.
+Proof. destruct T; intros H; try reflexivity; discriminate H. Qed.
+
+Lemma keys_not_any T : keys_ok (ckeys T) = true -> T <> TAny.
+Proof. intros H ->. discriminate H. Qed.
+
+Section Master.
+  Variables ce cd : codec.
+  Hypothesis Hce : enc_ok ce.
+  Variable R : aval -> aval -> Prop.
+  Variable srt : bool.
+  Hypothesis HR : rel_ok R srt.
+  Variables aset aany : bool.
+
+  Definition Pv3 (t: ty) (x: val) : Prop := stage3_val ce cd t x = true.
+
+  Hypothesis Hset : aset = true -> forall T' fs, base_of T' = TSet fs -> wf_tags T' = true ->
+    keys_ok (flat_map ckeys (map snd fs)) = true ->
+    Forall (comp_ok ce cd R Pv3) fs ->
+    forall vs, comp_vals ce Pv3 fs vs -> val_ok ce cd R T' (VRec vs).
+  Hypothesis Hany_item : aany = true -> forall v, stage3_val ce cd TAny v = true -> item_sty ce cd R TAny v.
+  Hypothesis Hany_tagged : aany = true -> forall T', base_of T' = TAny -> is_wrapped T' = true ->
+    stage3_ty srt ce T' = true -> forall v, stage3_val ce cd T' v = true -> val_ok ce cd R T' v.
+
+  (* a type that guides the decoder directly: from the invariant, or the untagged ANY *)
+  Lemma direct_item T' : (T' <> TAny -> forall v, Pv3 T' v -> val_ok ce cd R T' v) ->
+    frag aset aany T' = true -> direct_ok T' = true -> forall v, Pv3 T' v -> item_sty ce cd R T' v.
+  Proof.
+    intros Hval Hfr Hdir v Hv. unfold direct_ok in Hdir. apply Bool.orb_true_iff in Hdir. destruct Hdir as [HK|Hany].
+    - apply (item_sty_of_val ce cd R); [exact (Hval (keys_not_any T' HK) v Hv)|].
+      apply resolves_sty; [exact HK|exact (wire_nonempty ce cd T' v HK Hv)].
+    - destruct T'; try discriminate Hany. exact (Hany_item Hfr v Hv).
+  Qed.
+
+  Theorem stage3_val_ok : forall T T', base_of T' = base_of T -> stage3_ty srt ce T' = true -> frag aset aany T' = true ->
+    T' <> TAny -> forall v, stage3_val ce cd T' v = true -> val_ok ce cd R T' v.
+  Proof.
+    induction T as [| | | | | | | | n|fs IH|fs IH|t IH|t IH|alts IH| |tg x IH|tg x IH] using ty_ind';
+      intros T' Hb Hty Hfr Hnany v Hv; cbn [base_of] in Hb;
+      destruct (stage3_ty_base srt ce T' Hty) as [Hw Htb]; pose proof (frag_base aset aany T' Hfr) as Hfb;
+      try (assert (Hna: base_of T' <> TAny) by (rewrite Hb; discriminate));
+      try (assert (Hp: prim_base T' = true) by (unfold prim_base; rewrite Hb; reflexivity);
+           apply (prim_val ce cd Hce R srt HR T' v Hp Hw); rewrite (stage1_val_base ce cd T' v), Hb;
+           rewrite (stage3_val_base ce cd T' v Hna), Hb in Hv; exact Hv).
+    - (* SEQUENCE *)
+      rewrite Hb in Htb, Hfb. cbn [stage3_ty] in Htb. cbn [frag] in Hfb.
+      apply Bool.andb_true_iff in Htb. destruct Htb as [Hfs Hwf].
+      rewrite (stage3_val_base ce cd T' v Hna), Hb in Hv. destruct v; try discriminate Hv.
+      rewrite (stage3_val_rec ce cd (TSeq fs) fs fs0 (or_introl eq_refl)) in Hv.
+      rewrite forallb_forall in Hfs, Hfb.
+      apply (record_val ce cd Hce R srt HR Pv3 T' fs Hb Hw Hwf).
+      + apply Forall_forall. intros f Hin. rewrite Forall_forall in IH.
+        pose proof (Hfs f Hin) as Hf1. apply Bool.andb_true_iff in Hf1. destruct Hf1 as [Hf1 _].
+        apply Bool.andb_true_iff in Hf1. destruct Hf1 as [Hfty Hdir].
+        split; [intros Hnr; exact (seq_wf_nonreq_keys fs Hwf f Hin Hnr)|].
+        intros x Hx. split.
+        * intros HKf. exact (IH f Hin (snd f) eq_refl Hfty (Hfb f Hin) (keys_not_any _ HKf) x Hx).
+        * intros Hreq. rewrite Hreq in Hdir. cbn [negb orb] in Hdir.
+          apply (direct_item (snd f)); [|exact (Hfb f Hin)|exact Hdir|exact Hx].
+          intros Hn y Hy. exact (IH f Hin (snd f) eq_refl Hfty (Hfb f Hin) Hn y Hy).
+      + apply comp_vals_of_bool; [|exact Hv]. apply forallb_forall. intros f Hin.
+        specialize (Hfs f Hin). apply Bool.andb_true_iff in Hfs. exact (proj2 Hfs).
+    - (* SET *)
+      rewrite Hb in Htb, Hfb. cbn [stage3_ty] in Htb. cbn [frag] in Hfb.
+      apply Bool.andb_true_iff in Htb. destruct Htb as [Hfs HK].
+      apply Bool.andb_true_iff in Hfb. destruct Hfb as [Haset Hfb].
+      rewrite (stage3_val_base ce cd T' v Hna), Hb in Hv. destruct v; try discriminate Hv.
+      rewrite (stage3_val_rec ce cd (TSet fs) fs fs0 (or_intror eq_refl)) in Hv.
+      rewrite forallb_forall in Hfs, Hfb.
+      apply (Hset Haset T' fs Hb Hw HK).
+      + apply Forall_forall. intros f Hin. rewrite Forall_forall in IH.
+        pose proof (Hfs f Hin) as Hf1. apply Bool.andb_true_iff in Hf1. destruct Hf1 as [Hfty _].
+        assert (HKf: keys_ok (ckeys (snd f)) = true).
+        { apply (keys_ok_sub (snd f) (map snd fs)); [apply in_map; exact Hin|exact HK]. }
+        split; [intros _; exact HKf|]. intros x Hx.
+        pose proof (IH f Hin (snd f) eq_refl Hfty (Hfb f Hin) (keys_not_any _ HKf) x Hx) as Hval.
+        split; [intros _; exact Hval|]. intros _.
+        apply (item_sty_of_val ce cd R); [exact Hval|].
+        apply resolves_sty; [exact HKf|exact (wire_nonempty ce cd (snd f) x HKf Hx)].
+      + apply comp_vals_of_bool; [|exact Hv]. apply forallb_forall. intros f Hin.
+        specialize (Hfs f Hin). apply Bool.andb_true_iff in Hfs. exact (proj2 Hfs).
+    - (* SEQUENCE OF *)
+      rewrite Hb in Htb, Hfb. cbn [stage3_ty] in Htb. cbn [frag] in Hfb.
+      apply Bool.andb_true_iff in Htb. destruct Htb as [Hty_t Hdir].
+      rewrite (stage3_val_base ce cd T' v Hna), Hb in Hv. destruct v; try discriminate Hv. cbn [stage3_val] in Hv.
+      apply (listof_val ce cd Hce R srt HR T' t (or_introl Hb) Hw); [intros E; rewrite Hb in E; discriminate|].
+      apply Forall_forall. intros x Hin. rewrite forallb_forall in Hv.
+      apply (direct_item t); [|exact Hfb|exact Hdir|exact (Hv x Hin)].
+      intros Hn y Hy. exact (IH t eq_refl Hty_t Hfb Hn y Hy).
+    - (* SET OF *)
+      rewrite Hb in Htb, Hfb. cbn [stage3_ty] in Htb. cbn [frag] in Hfb.
+      apply Bool.andb_true_iff in Htb. destruct Htb as [Htb Hsrt].
+      apply Bool.andb_true_iff in Htb. destruct Htb as [Hty_t Hdir].
+      rewrite (stage3_val_base ce cd T' v Hna), Hb in Hv. destruct v; try discriminate Hv. cbn [stage3_val] in Hv.
+      apply (listof_val ce cd Hce R srt HR T' t (or_intror Hb) Hw).
+      { intros _ Hs. rewrite Hs in Hsrt. cbn [negb] in Hsrt. rewrite Bool.orb_false_r in Hsrt. exact Hsrt. }
+      apply Forall_forall. intros x Hin. rewrite forallb_forall in Hv.
+      apply (direct_item t); [|exact Hfb|exact Hdir|exact (Hv x Hin)].
+      intros Hn y Hy. exact (IH t eq_refl Hty_t Hfb Hn y Hy).
+    - (* CHOICE *)
+      rewrite Hb in Htb, Hfb. cbn [stage3_ty] in Htb. cbn [frag] in Hfb.
+      apply Bool.andb_true_iff in Htb. destruct Htb as [Halts HK].
+      rewrite (stage3_val_base ce cd T' v Hna), Hb in Hv. destruct v as [bb|z|bs|bo|cs| |arcs|r|vfs|xs|i x|ab]; try discriminate Hv.
+      rewrite stage3_val_choice in Hv. destruct (nth_error alts i) as [a|] eqn:En; [|discriminate Hv].
+      rewrite forallb_forall in Halts, Hfb.
+      assert (IHa: Forall (fun a => forall x, Pv3 a x -> val_ok ce cd R a x) alts).
+      { apply Forall_forall. intros a0 Hin y Hy. rewrite Forall_forall in IH.
+        exact (IH a0 Hin a0 eq_refl (Halts a0 Hin) (Hfb a0 Hin) (keys_not_any _ (keys_ok_sub a0 alts Hin HK)) y Hy). }
+      destruct (is_wrapped T') eqn:Hwr.
+      + exact (choice_val_tagged ce cd Hce R srt HR Pv3 srt T' alts Hb Hwr Hty HK IHa i x a En Hv).
+      + rewrite (unwrapped_base T' Hwr) in Hb. subst T'.
+        exact (choice_val_untagged ce cd Hce R srt HR Pv3 alts HK IHa i x a En Hv).
+    - (* ANY: tagged *)
+      rewrite Hb in Hfb. cbn [frag] in Hfb.
+      assert (Hwr: is_wrapped T' = true).
+      { destruct T'; try reflexivity; try discriminate Hb. congruence. }
+      exact (Hany_tagged Hfb T' Hb Hwr Hty v Hv).
+    - exact (IH T' Hb Hty Hfr Hnany v Hv).
+    - exact (IH T' Hb Hty Hfr Hnany v Hv).
+  Qed.
+
+  (* the keys of a type at the outermost level *)
+  Lemma top_keys T : stage3_ty srt ce T = true -> T <> TAny -> keys_ok (ckeys T) = true.
+  Proof.
+    intros Hty Hn. destruct (stage3_ty_base srt ce T Hty) as [Hw _].
+    destruct T; try (apply plain_keys; [exact Hw|reflexivity|reflexivity]).
+    - (* CHOICE *) cbn [stage3_ty] in Hty. apply Bool.andb_true_iff in Hty. rewrite ckeys_choice. exact (proj2 Hty).
+    - congruence.
+    - (* IMPLICIT *)
+      destruct (untagged_base (TImp t T)) eqn:Hub.
+      + destruct (tagset_shape_u srt ce _ Hty Hub eq_refl) as (t0 & r & Hts & _).
+        cbn [ckeys]. rewrite (tagset_of'_ok _ _ Hts). reflexivity.
+      + apply plain_keys; [exact Hw| |reflexivity]. unfold untagged_base, tagged_base in *. destruct (base_of (TImp t T)); try reflexivity; discriminate Hub.
+    - destruct (untagged_base (TExp t T)) eqn:Hub.
+      + destruct (tagset_shape_u srt ce _ Hty Hub eq_refl) as (t0 & r & Hts & _).
+        cbn [ckeys]. rewrite (tagset_of'_ok _ _ Hts). reflexivity.
+      + apply plain_keys; [exact Hw| |reflexivity]. unfold untagged_base, tagged_base in *. destruct (base_of (TExp t T)); try reflexivity; discriminate Hub.
+  Qed.
+
+  Theorem stage3_decode : forall T v b tl,
+    stage3_ty srt ce T = true -> frag aset aany T = true -> stage3_val ce cd T v = true ->
+    encode ce true 0 T v = Ok b -> N.of_nat (length b) <= index_max ->
+    exists v', decode cd (Some T) (b ++ tl) = Ok (DV T v', tl) /\ R (abs T v') (abs T v).
+  Proof.
+    intros T v b tl Hty Hfr Hv He Hmax.
+    assert (Hdir: direct_ok T = true).
+    { unfold direct_ok. destruct T; try (rewrite top_keys; [reflexivity|exact Hty|discriminate]). apply Bool.orb_true_r. }
+    pose proof (direct_item T (fun Hn y Hy => stage3_val_ok T T eq_refl Hty Hfr Hn y Hy) Hfr Hdir v Hv) as Hit.
+    destruct (Hit b He Hmax) as (v' & HRv & _ & Hc).
+    exists v'. split; [|exact HRv]. unfold decode.
+    assert (Hf: fuel_ok T b (dec_fuel (Some T) (b ++ tl))).
+    { unfold fuel_ok, dec_fuel. rewrite app_length. lia. }
+    pose proof (consumes_decode_with cd _ (Some T) b tl (DV T v') (Hc _ Hf)) as Hdw.
+    unfold decode_with in Hdw. exact Hdw.
+  Qed.
+End Master.
+
+(* Round trip, stage 3 (c): as (b), plus CHOICE - untagged or tagged, nested, as component, element or
+   alternative - whose alternatives have keys (complete tag sets) none of which is a suffix of another *)
+Theorem roundtrip_stage3c : forall ce cd T v b tl,
+  enc_ok ce -> stage3_ty false ce T = true -> frag false false T = true -> stage3_val ce cd T v = true ->
+  encode ce true 0 T v = Ok b -> N.of_nat (length b) <= index_max ->
+  exists v', decode cd (Some T) (b ++ tl) = Ok (DV T v', tl) /\ abs T v' = abs T v.
+Proof.
+  intros ce cd T v b tl Hce Hty Hfr Hv He Hmax.
+  apply (stage3_decode ce cd Hce eq false rel_ok_eq false false); try assumption; intros E; discriminate E.
+Qed.
+
+Print Assumptions roundtrip_stage3c.
+
+(* the hypotheses are met: DER encoder, BER decoder;
+   SEQUENCE { CHOICE { INTEGER, [0] EXPLICIT INTEGER, CHOICE { BOOLEAN, [1] IMPLICIT OCTET STRING } },
+              CHOICE { NULL, [5] EXPLICIT SEQUENCE OF INTEGER } OPTIONAL,
+              [7] EXPLICIT CHOICE { INTEGER, BOOLEAN } OPTIONAL,
+              SEQUENCE OF CHOICE { INTEGER, [APPLICATION 2] IMPLICIT [3] EXPLICIT CHOICE { NULL, OCTET STRING } } } *)
+Definition stage3c_example_ty : ty :=
+  TSeq [ (Req, TChoice [TInt; TExp (mkTag Ctx false 0) TInt; TChoice [TBool; TImp (mkTag Ctx false 1) TOcts]]);
+         (Opt, TChoice [TNull; TExp (mkTag Ctx false 5) (TSeqOf TInt)]);
+         (Opt, TExp (mkTag Ctx false 7) (TChoice [TInt; TBool]));
+         (Req, TSeqOf (TChoice [TInt; TImp (mkTag Appl false 2) (TExp (mkTag Ctx false 3) (TChoice [TNull; TOcts]))])) ].
+Definition stage3c_example_val : val :=
+  VRec [ Some (VChoice 2 (VChoice 1 (VOcts [9])));
+         None;
+         Some (VChoice 1 (VBool false));
+         Some (VList [VChoice 0 (VInt 5); VChoice 1 (VChoice 1 (VOcts [1;2]))]) ].
+
+Example roundtrip_stage3c_nonvacuous :
+  stage3_ty false DER stage3c_example_ty = true /\ frag false false stage3c_example_ty = true
+  /\ stage3_val DER BER stage3c_example_ty stage3c_example_val = true
+  /\ encode DER true 0 stage3c_example_ty stage3c_example_val
+     = Ok [48; 19; 129; 1; 9; 167; 3; 1; 1; 0; 48; 9; 2; 1; 5; 98; 4; 4; 2; 1; 2]
+  /\ N.of_nat 21 <= index_max.
+Proof. vm_compute. repeat split; try reflexivity; discriminate. Qed.
+
+(* the condition on the keys is the one the decoder needs: with [0] EXPLICIT INTEGER and [0] IMPLICIT OCTET STRING as
+   alternatives the key of the second is a suffix of the key of the first, and the first alternative is not decodable:
+   its outer tag is taken for the (constructed) OCTET STRING *)
+Example choice_suffix_clash :
+  let T := TChoice [TExp (mkTag Ctx false 0) TInt; TImp (mkTag Ctx false 0) TOcts] in
+  stage3_ty false BER T = false
+  /\ encode BER true 0 T (VChoice 0 (VInt 5)) = Ok [160; 3; 2; 1; 5]
+  /\ decode BER (Some T) [160; 3; 2; 1; 5] = Err EMalformed.
+Proof. vm_compute. repeat split; reflexivity. Qed.
